@@ -307,6 +307,16 @@ impl<VM: VMBinding> AllocatorContext<VM> {
         };
         Box::leak(Box::new(ctx))
     }
+    /// Install a GC trigger policy into the (zero-initialised) trigger, so that
+    /// `GCTrigger::will_oom_on_alloc` can be consulted.
+    pub fn verif_set_trigger_policy(
+        &self,
+        policy: Box<dyn crate::util::heap::GCTriggerPolicy<VM>>,
+    ) {
+        let trigger = Arc::as_ptr(&self.gc_trigger)
+            as *mut crate::util::heap::gc_trigger::GCTrigger<VM>;
+        unsafe { std::ptr::write(std::ptr::addr_of_mut!((*trigger).policy), policy) };
+    }
     pub fn verif_alloc_options(&self) -> AllocationOptions {
         self.get_alloc_options()
     }
